@@ -118,10 +118,21 @@ Definition bayes_expand (e : expr) : expr :=
 
 Definition by_name (l : list var) : list var := stable_sort (fun a b => Nat.ltb (vn a) (vn b)) l.
 
-Definition contract (e : expr) : expr :=
+(* pinned tree before the repairs: the denominator's population is ignored, and equal child sets are accepted *)
+Definition contract_old (e : expr) : expr :=
   match e with
   | EFrac (EProb pop nch []) (EProb _ dch []) =>
       if subset dch nch
+      then prob_raw pop (by_name (dedup (diff nch dch))) (by_name (dedup (inter nch dch)))
+      else e
+  | _ => e
+  end.
+
+(* repaired: same kind of probability and same population; the denominator's children a proper subset *)
+Definition contract (e : expr) : expr :=
+  match e with
+  | EFrac (EProb pop nch []) (EProb pop' dch []) =>
+      if eqb pop pop' && subset dch nch && negb (subset nch dch)
       then prob_raw pop (by_name (dedup (diff nch dch))) (by_name (dedup (inter nch dch)))
       else e
   | _ => e
